@@ -11,10 +11,12 @@
 (* in SRAccessor.tla, the square / file format in SRSquare.tla.             *)
 (*                                                                           *)
 (* Actions (store/store.go, store_cache.go, getter.go, cache/*.go):         *)
-(*   PutODSQ4, PutODS   put(): recent-cache insertion FIRST, then files;    *)
-(*                      "exists" short-cut; ODSQ4 over an ODS-only block    *)
-(*                      removes and recreates everything (and thereby       *)
-(*                      evicts what it has just cached)                     *)
+(*   PutODSQ4, PutODS   put(): recent-cache insertion FIRST (skipped when   *)
+(*                      the serving cache already has the height), then     *)
+(*                      the files; "exists" short-cut; ODSQ4 over an        *)
+(*                      ODS-only block just adds the Q4 file (the ODS and   *)
+(*                      the Q4 file are created independently, the size     *)
+(*                      validation that follows finds both complete)        *)
 (*   Reopen             NewStore over the same directory: caches empty      *)
 (*   RemoveQ4           cache.Remove(height) + unlink Q4                    *)
 (*   EvictRecent, EvictServing   LRU eviction by another height             *)
@@ -129,12 +131,11 @@ DoPutODSQ4(S) ==
   IF IsEmptyBlock THEN [S EXCEPT !.link = TRUE]                       \* only the (sym)link
   ELSE LET S1 == CacheInsert(S) IN
        IF S1.odsF.present /\ S1.q4F.present THEN S1                   \* exists
-       ELSE IF S1.odsF.present THEN WriteQ4(WriteOds(DropCaches(S1))) \* size validation fails: remove all, recreate
+       ELSE IF S1.odsF.present THEN WriteQ4(S1)                       \* ODS exists, Q4 is created; sizes validate; caches stay
        ELSE WriteQ4(WriteOds(S1))
 DoPutODS(S) ==
   IF IsEmptyBlock THEN [S EXCEPT !.link = TRUE]
   ELSE LET S1 == CacheInsert(S) IN IF S1.odsF.present THEN S1 ELSE WriteOds(S1)
-PutNeedsRemove(S) == ~IsEmptyBlock /\ S.odsF.present /\ ~S.q4F.present
 
 DoRemoveQ4(S) == IF IsEmptyBlock THEN S ELSE [DropCaches(S) EXCEPT !.q4F = NoQ4File]
 
@@ -144,7 +145,7 @@ Labels == {"PutODSQ4", "PutODS", "Reopen", "RemoveQ4", "EvictRecent", "EvictServ
            "ReadUpperHeld", "ReadAllHeld", "CloseHeld", "GetterReadAll", "CachedReadUpper", "CachedReadAll"}
 
 Enabled(a, S) ==
-  CASE a = "PutODSQ4" -> HasFree(S) /\ ~(PutNeedsRemove(S) /\ BlocksOnHeld(S))
+  CASE a = "PutODSQ4" -> HasFree(S)
     [] a = "PutODS"   -> HasFree(S)
     [] a = "Reopen"   -> ~S.held.open
     [] a = "RemoveQ4" -> S.link /\ ~BlocksOnHeld(S)
@@ -204,6 +205,20 @@ Obs(w, dq4) ==
    core        |-> w.inner.variant]
 NoObs == [lowerRowPar |-> FALSE, lowerColPar |-> FALSE, upperPar |-> FALSE, q3axis |-> "none", reader |-> "none", core |-> "none"]
 
+(* the same for the plain cores opened directly on the files (file.OpenODS, file.ODSWithQ4), read *)
+(* in the order: Reader, lower row, right column, Q3 sample, Shares, Reader again                  *)
+PObs(o, dq4) ==
+  LET k == EK(W.E)
+      r0 == PRead(W, o, dq4, "Reader", <<>>)
+      h1 == PRead(W, r0.o, dq4, "AxisHalf", <<"row", k>>)
+      h2 == PRead(W, h1.o, dq4, "AxisHalf", <<"col", k>>)
+      s  == PRead(W, h2.o, dq4, "Sample", <<k, 0>>)
+      sh == PRead(W, s.o, dq4, "Shares", <<>>)
+      r1 == PRead(W, sh.o, dq4, "Reader", <<>>) IN
+  [reader0 |-> r0.res.src, lowerRowPar |-> h1.res.par, lowerColPar |-> h2.res.par, q3axis |-> s.res.axis,
+   reader1 |-> r1.res.src]
+NoPObs == [reader0 |-> "none", lowerRowPar |-> FALSE, lowerColPar |-> FALSE, q3axis |-> "none", reader1 |-> "none"]
+
 (* The model's prediction for the probe sequence the driver runs in EVERY state it reaches:        *)
 (*   has; reads through the held accessor; Store.GetByHeight + all reads + Close; the getter;      *)
 (*   CachedStore.GetByHeight + all reads + Close; Store.GetByHeight again; GetByHash.              *)
@@ -225,17 +240,33 @@ Pred(S) ==
    store2 |-> [found |-> o6.found, via |-> o6.via, obs |-> obsOf(o6)],
    byhash |-> [via |-> ByHashVia(S),
                obs |-> IF ByHashVia(S) = "file" THEN Obs(NewFileObj(S), q) ELSE NoObs],
+   plainq4  |-> IF S.odsF.present THEN PObs(FileInner(S.odsF), q) ELSE NoPObs,
+   plainods |-> IF S.odsF.present THEN PObs(PlainOdsInner(S.odsF), q) ELSE NoPObs,
    disk |-> [ods |-> S.odsF.present, q4 |-> S.q4F.present, link |-> S.link]]
 
+(* Abstract description of a store state (what the VIEW distinguishes, in readable form): used to  *)
+(* join EDGE records (transitions) with STATE records (predictions), and in the driver's reports.   *)
+LevelOf(w) == LET k == KOf(w.inner) IN
+              IF ~w.pc[<<"row", 0>>].has THEN "cold" ELSE IF w.pc[<<"row", k>>].has THEN "all" ELSE "upper"
+ObjAbs(S, id) ==
+  IF id = 0 THEN [core |-> "none", q4 |-> "none", mem |-> FALSE, level |-> "none"]
+  ELSE LET w == S.objs[id].w IN [core |-> w.inner.variant, q4 |-> w.inner.q4.st, mem |-> w.inner.mem, level |-> LevelOf(w)]
+Abs(S) ==
+  [cfgR |-> S.cfgR, cfgS |-> S.cfgS, ods |-> S.odsF.present, q4 |-> S.q4F.present, link |-> S.link,
+   recent |-> ObjAbs(S, S.recent), serving |-> ObjAbs(S, S.serving),
+   held |-> [open |-> S.held.open, kind |-> S.held.kind,
+             which |-> IF ~S.held.open THEN "none" ELSE IF S.held.id = S.recent THEN "recent"
+                       ELSE IF S.held.id = S.serving THEN "serving" ELSE "own",
+             obj |-> ObjAbs(S, IF S.held.open THEN S.held.id ELSE 0)]]
+
 (* EDGE records: evaluated on every generated transition (ACTION_CONSTRAINT), before the           *)
-(* de-duplication of states, so every edge of the representation graph is printed exactly once     *)
-(* with a shortest history leading to its source state.                                            *)
+(* de-duplication of states, so every edge of the representation graph is printed exactly once,    *)
+(* with a shortest history leading to its source state.  STATE records: once per distinct state,   *)
+(* the predictions for the probes.  bin/check joins the two on (empty, abs).                       *)
 PrintEdge ==
-  PrintT(<<"EDGE", ToJson([hist |-> hist', cfgR |-> st.cfgR, cfgS |-> st.cfgS, empty |-> IsEmptyBlock,
-                           k |-> EK(W.E), pred |-> Pred(st')])>>)
-PrintInit ==
-  (hist = <<>>) => PrintT(<<"EDGE", ToJson([hist |-> hist, cfgR |-> st.cfgR, cfgS |-> st.cfgS, empty |-> IsEmptyBlock,
-                                           k |-> EK(W.E), pred |-> Pred(st)])>>)
+  PrintT(<<"EDGE", ToJson([hist |-> hist', empty |-> IsEmptyBlock, abs |-> Abs(st')])>>)
+PrintState ==
+  PrintT(<<"STATE", ToJson([hist |-> hist, empty |-> IsEmptyBlock, abs |-> Abs(st), pred |-> Pred(st)])>>)
 
 ---------------------------------------------------------------------------
 (* Invariants *)
